@@ -105,6 +105,10 @@ def all_cases(ctx):
     quick.append(mk("symlink", "present", "small", "small", seed=s))
     quick.append(mk("unpack", "absent", "small", sizes[s % 3], seed=s))
     quick.append(mk("unpack", "present", "small", "small", seed=s))
+    if os.access("/dev/shm", os.W_OK):
+        # the registry's tmp directory on another file system: unpacking fails at the final rename - nothing may appear
+        quick.append(mk("unpack", "absent", "small", "small", "xdev", seed=s))
+        thorough.append(mk("unpack", "absent", "small", "big", "xdev", seed=s))
     base = [c for c in extra if c["fault"] == "none"]
     quick.append(base[0])
     quick.append(base[1 + s % (len(base) - 1)])
